@@ -805,6 +805,7 @@ pub proof fn lemma_after_walk(h0: Heap, h1: Heap, h2: Heap, me: int)
     }
 }
 pub open spec fn is_cut(b: BuiltInPredicate) -> bool { b.functor@ =~= seq!['!'] }
+pub open spec fn is_print_list(b: BuiltInPredicate) -> bool { b.functor@ =~= "print_list"@ }
 pub proof fn lemma_up_same(h: Heap, h2: Heap, n: int, a: int)
     requires up(h, n, a), alive(h, n),
              forall|m: int| #[trigger] alive(h, m) ==> alive(h2, m) && h2.st[m].parent == h.st[m].parent && h2.st[m].depth == h.st[m].depth,
